@@ -90,10 +90,23 @@ func Commit(db *NoKV.DB, latches *latch.Manager, req *pb.CommitRequest) *pb.KeyE
 	if req == nil {
 		return nil
 	}
+	if req.CommitVersion < req.StartVersion {
+		// A commit record below the start version is never found again by its start version:
+		// the transaction could afterwards be rolled back although it is committed.
+		return keyErrorAbort("commit version below start version")
+	}
 	guard := latches.Acquire(req.Keys)
 	defer guard.Release()
 
+	// Every key of the request is latched, so nothing changes between looking at the keys
+	// and writing: first decide for all of them whether the commit must be refused, and
+	// only then write, so that a refused commit leaves none of its keys committed.
+	type pendingCommit struct {
+		key  []byte
+		lock *Lock
+	}
 	reader := NewReader(db)
+	pending := make([]pendingCommit, 0, len(req.Keys))
 	for _, key := range req.Keys {
 		if len(key) == 0 {
 			return keyErrorAbort("empty key in commit")
@@ -118,9 +131,31 @@ func Commit(db *NoKV.DB, latches *latch.Manager, req *pb.CommitRequest) *pb.KeyE
 		if lock.Ts != req.StartVersion {
 			return keyErrorLocked(key, lock)
 		}
-		if err := commitKey(db, reader, key, lock, req.CommitVersion); err != nil {
+		if err := commitRefusal(reader, key, lock, req.CommitVersion); err != nil {
 			return err
 		}
+		pending = append(pending, pendingCommit{key: key, lock: lock})
+	}
+	for _, p := range pending {
+		if err := commitKey(db, reader, p.key, p.lock, req.CommitVersion); err != nil {
+			return err
+		}
+	}
+	return nil
+}
+
+// commitRefusal reports why the locked key cannot be committed at commitVersion, without
+// writing anything.
+func commitRefusal(reader *Reader, key []byte, lock *Lock, commitVersion uint64) *pb.KeyError {
+	if lock.MinCommitTs > commitVersion {
+		return keyErrorCommitTsExpired(key, commitVersion, lock.MinCommitTs)
+	}
+	write, _, err := reader.GetWriteByStartTs(key, lock.Ts)
+	if err != nil {
+		return keyErrorRetryable(err)
+	}
+	if write != nil && write.Kind == pb.Mutation_Rollback {
+		return keyErrorAbort("transaction already rolled back")
 	}
 	return nil
 }
